@@ -459,7 +459,11 @@ def case_reject_degree(log, mode, n):
 
     def run():
         xs = sym_nodes(n, mode)
-        xg = ip.XGrid(list(xs), log=mode)
+        try:
+            xg = ip.XGrid(list(xs), log=mode)
+        except ValueError as e:
+            _valid_rejected(log, e, n, 1, mode)
+            return
         deg = _ZDeg("deg")
         assume_z3(deg >= -3)
         assume_z3(deg <= n + 3)
